@@ -137,9 +137,13 @@ where
             // Algorithm BB
             let alpha = a + b;
 
+            // `alpha - 2` and `2ab - alpha` cancel catastrophically when `a` and `b` are
+            // both close to 1; with `da = a - 1` and `db = b - 1` (exact for values below
+            // 2) they are `da + db` and `da + db + 2 da db`, all terms positive.
             let two = F::from(2.).unwrap();
-            let beta_numer = alpha - two;
-            let beta_denom = two * a * b - alpha;
+            let (da, db) = (a - F::one(), b - F::one());
+            let beta_numer = da + db;
+            let beta_denom = da + db + two * da * db;
             let beta = (beta_numer / beta_denom).sqrt();
 
             let gamma = a + F::one() / beta;
